@@ -36,13 +36,17 @@ def bounds(tier):
     return {'DP': DPS, 'index_shapes': [list(s) for s in SHAPES], 'slice_alphabet': len(slices_for(tier, 3)), 'max_newaxis': 2}
 
 
-def slices_for(tier, n):
+def slices_for(tier, n, ndim=1):
     if tier == 'quick':
         return [slice(None), slice(1, None), slice(None, -1), slice(None, None, 2), slice(None, None, -1), slice(1, None, -1)]
     out = []
-    for s in (None, 0, 1, -1, n):
-        for e in (None, 0, 1, -1, n):
-            for st in (None, 1, 2, -1, -2):
+    if ndim >= 3:           # medium alphabet for 3-D shapes (the full one gives 5e7 expressions)
+        S, E, ST = (None, 1, -1), (None, -1, n), (None, 2, -1)
+    else:
+        S, E, ST = (None, 0, 1, -1, n), (None, 0, 1, -1, n), (None, 1, 2, -1, -2)
+    for s in S:
+        for e in E:
+            for st in ST:
                 out.append(slice(s, e, st))
     return out
 
@@ -52,7 +56,7 @@ def index_exprs(shape, tier, max_none=2, reduced=False):
     ndim = len(shape)
     per_axis = []
     for n in shape:
-        sl = slices_for(tier, n)
+        sl = slices_for(tier, n, ndim)
         if reduced:
             sl = [slice(None), slice(1, None), slice(None, None, -1)]
         per_axis.append(list(range(-n, n)) + sl)
@@ -414,7 +418,7 @@ def run_ops(c, tier):
 def units(tier, seed):
     us = []
     for si, shape in enumerate(SHAPES):
-        nchunks = 1 if si == 0 else (6 if tier == 'quick' else 16)
+        nchunks = 1 if si == 0 else (6 if tier == 'quick' else 48)
         for k in range(nchunks):
             us.append({'kind': 'getitem', 'shape': list(shape), 'chunk': k, 'nchunks': nchunks, 'tier': tier, 'seed': seed})
     for shape in [(3,), (2, 3)]:
